@@ -194,7 +194,13 @@ class Pool:
         self.rng = rng
         self.producers = producers     # type text -> [(fname, [param types])]
 
+    force_empty = False   # when set, every top-level container argument is empty at run time
+
     def pick(self, t, depth=0, small=False):
+        if depth == 0 and (self.force_empty or self.rng.random() < 0.12):
+            e = self.empty(t)
+            if e is not None:
+                return e
         return self._pick(t, depth, small, True)
 
     def _pick(self, t, depth=0, small=False, inject=False):
@@ -279,6 +285,53 @@ class Pool:
             return None
         return fname + '(' + ', '.join(as_) + ')'
 
+    def empty(self, t, depth=1):
+        """a value of container type t that is EMPTY AT RUN TIME but whose static element type is fully known
+        (None if t is not such a container type)"""
+        rng = self.rng
+        if isinstance(t, str) or t[0] != 'N' or not t[2]:
+            return None
+        name, args = t[1], t[2]
+        if any(a == '?' for a in args):
+            return None
+        item = lambda a: self._pick(a, 3, True)
+        if name in ('Sequence', 'Generator'):
+            e = args[0]
+            x = item(e)
+            if x is None:
+                return None
+            forms = [f'[{x}].take(0)', f'[{x}].skip(1)', f'[{x}, {x}].skip(5)', f'[{x}].filter((v: {ts(e)})->{{false}}).to_array()']
+            if e == 'int':
+                forms += ['range(0).map((x: int)->{x})', 'range(3, 3)', 'range(2).skip(2)']
+            if not isinstance(e, str) and e[0] == 'T' and len(e[1]) == 2:
+                a, b = item(e[1][0]), item(e[1][1])
+                if a is not None and b is not None:
+                    forms += [f'zip([{a}], [{b}]).skip(1)', f'zip([{a}], [{b}]).take(0)', f'zip([{a}].take(0), [{b}])']
+            sq = rng.choice(forms)
+            if name == 'Sequence':
+                return sq
+            return rng.choice([sq + '.to_generator()', f'[{x}].to_generator().take(0)', f'[{x}].to_generator().skip(2)',
+                               f'[{x}].to_generator().filter((v: {ts(e)})->{{false}})'])
+        if name == 'Optional':
+            x = item(args[0])
+            return None if x is None else rng.choice([f'if(false, some({x}), none())', f'[{x}].first((v: {ts(args[0])})->{{false}})'])
+        if name == 'Stack':
+            x = item(args[0])
+            return None if x is None else f'stack().push({x}).tail()'
+        if name == 'Set':
+            if args[0] not in HASHABLE:
+                return None
+            x = item(args[0])
+            return rng.choice([f'set<{ts(args[0])}>()', f'set<{ts(args[0])}>().update([{x}]).remove({x})'])
+        if name == 'Mapping':
+            if args[0] not in HASHABLE:
+                return None
+            k, v = item(args[0]), item(args[1])
+            if k is None or v is None:
+                return None
+            return f'mapping<{ts(args[0])}>().set({k}, {v}).pop({k})'
+        return None
+
     def seq(self, e, depth, finite=False):
         rng = self.rng
         r = rng.random()
@@ -356,6 +409,23 @@ def force_expr(name, t):
         return f'{name}.to_generator().take(4).to_array()'
     if t[1] == 'Optional' and t[2] and not isinstance(t[2][0], str) and t[2][0][0] == 'N' and t[2][0][1] in ('Sequence', 'Generator'):
         return f'{name}.map((v: {ts(t[2][0])})->{{v.take(4).to_array()}})'
+    return None
+
+
+def followup_expr(name, t):
+    """a use of a value according to its static type t: a wrong-shaped value makes the interpreter fail here"""
+    if isinstance(t, str):
+        return {'int': f'{name} + 1', 'float': f'{name} + 1.0', 'bool': f'!{name}', 'str': f'{name}.len()'}.get(t)
+    if t[0] == 'T':
+        return f'{name}::item0' if t[1] else None
+    if t[0] != 'N':
+        return None
+    if t[1] in ('Sequence', 'Set', 'Mapping', 'Stack'):
+        return f'{name}.len()'
+    if t[1] == 'Generator':
+        return f'{name}.take(1).to_array()'
+    if t[1] == 'Optional':
+        return f'{name}.has_value()'
     return None
 
 
@@ -489,6 +559,16 @@ def gen_calls(rng, sigs, per_overload):
                     continue
                 made += 1
                 out.append((name, s, name + '(' + ', '.join(args) + ')', subst(ret, b)))
+            if made and any(pool.empty(subst(t, {g: 'int' for g in gs})) is not None for t, _ in ps):
+                # once more with every container argument empty at run time (static element types known)
+                pool.force_empty = True
+                for attempt in range(3):
+                    b = {g: rng.choice(INST_TYPES[:6] + [('T', ['int', 'str'])]) for g in gs}
+                    args = [pool.pick(subst(t, b), 0) for t, _ in ps if _] or []
+                    if args and not any(a is None for a in args):
+                        out.append((name, s, name + '(' + ', '.join(args) + ')', subst(ret, b)))
+                        break
+                pool.force_empty = False
             if made == 0:
                 skipped[name + " " + s] = "no argument values for a parameter type"
     for name in sorted(DYN_CALLS):
@@ -500,6 +580,12 @@ def gen_calls(rng, sigs, per_overload):
                 if any(a is None for a in args):
                     continue
                 out.append((name, 'dyn ' + ', '.join(ts(t) for t in tys), name + '(' + ', '.join(args) + ')', None))
+            if any(pool.empty(t) is not None for t in tys):
+                pool.force_empty = True
+                args = [pool.pick(t, 0) for t in tys]
+                pool.force_empty = False
+                if not any(a is None for a in args):
+                    out.append((name, 'dyn ' + ', '.join(ts(t) for t in tys), name + '(' + ', '.join(args) + ')', None))
     return out, skipped
 
 
@@ -705,8 +791,11 @@ def library_search(chk, per_overload):
     chk.coverage["library_overloads_without_values"] = sorted(skipped)[:40]
     items = [(n + ' ' + s, e, force_expr('$', t) if t is not None else None, t) for n, s, e, t in calls]
     reached, ran = set(), set()
+    first_pass = []
     for li, limits in enumerate(LIB_LIMITS):
         res = run_bindings(chk, items, limits, f"lib{li}")
+        if li == 0:
+            first_pass = res
         for it, r in zip(items, res):
             chk.evaluations += 1
             chk.count(f"lib{li}:{r['outcome']}")
@@ -736,6 +825,36 @@ def library_search(chk, per_overload):
                     chk.violation(f"shape:lib:{it[0].split(' ')[0]}",
                                   f"the value of a library call does not have the shape of its static type {tytext}: {why}; call {it[1]!r} gave {dump[:200]}",
                                   {"src": r["src"], "limits": limits, "static_type": tytext, "dump": dump})
+    # second pass: the values that came out are USED according to their static type (member of a tuple, length of a
+    # sequence, has_value of an optional ..): a value of the wrong shape makes the interpreter itself fail here
+    follow = []
+    for it, r in zip(items, first_pass):
+        if r["outcome"] != "ok" or not r.get("type") or r["type"].startswith("!"):
+            continue
+        try:
+            t = parse_type(r["type"])
+        except ValueError:
+            continue
+        f = followup_expr('$', t)
+        if f:
+            follow.append((it[0] + " then " + f.replace('$', 'result'), it[1], f))
+            if not isinstance(t, str) and t[0] == 'T' and len(t[1]) > 1:
+                follow.append((it[0] + " then last member", it[1], f'$::item{len(t[1]) - 1}'))
+    res = run_bindings(chk, follow, LIB_LIMITS[0], "libuse")
+    for it, r in zip(follow, res):
+        chk.evaluations += 1
+        chk.count(f"libuse:{r['outcome']}")
+        if r["outcome"] in ("panic", "abort", "hang"):
+            report_failure(chk, "lib-use", "library call " + it[0], r)
+        elif r["outcome"] == "ok" and r.get("forced") and r.get("ftype") and not r["ftype"].startswith("!"):
+            try:
+                why = shape_ok(parse_dump(r["forced"]), parse_type(r["ftype"]))
+            except ValueError:
+                why = None
+            chk.count("shape:checked")
+            if why:
+                chk.violation(f"shape:lib-use:{it[0].split(' ')[0]}", f"a use of a library result does not have the shape of its static type {r['ftype']}: {why}; {it[0]}: {it[1]!r} gave {r['forced'][:200]}",
+                              {"src": r["src"], "limits": LIB_LIMITS[0], "static_type": r["ftype"], "dump": r["forced"]})
     chk.coverage["library_overloads_reached"] = len(reached)
     chk.coverage["library_overloads_run_to_a_value"] = len(ran)
     all_static = set(n + ' ' + s for n in sigs for s in sigs[n] if not s.startswith("dyn:"))
